@@ -134,7 +134,7 @@ def gen_scenario(rng, max_procs=4, max_steps=3, p_quiet=0.25, allow_empty=True, 
         scn['noemit'] = [v for v, _ in store if rng.random() < 0.35]
         # the flags may also be set through the engine's `store_schema` argument: per variable, or for the whole
         # branch (which then overrides what the processes declare)
-        via = rng.choice([None, None, 'leaf', 'branch_off', 'branch_on'])
+        via = rng.choice([None, None, 'leaf', 'branch_off', 'branch_on', 'mixed_on', 'mixed_off'])
         if via == 'branch_off':
             scn['noemit'] = [v for v, _ in store]
         elif via == 'branch_on':
@@ -323,7 +323,7 @@ def build_engine(scn, ctx, parallel_ok=False, entry='parts'):
         ctx.token_updaters[tok(name)] = make()
 
     # what the processes themselves declare (`_emit` in their ports schema); `store_schema` may override it
-    if scn.get('emit_via') in ('leaf', 'branch_off'):
+    if scn.get('emit_via') in ('leaf', 'branch_off', 'mixed_on', 'mixed_off'):
         declared_noemit = []
     elif scn.get('emit_via') == 'branch_on':
         declared_noemit = scn.get('declared_noemit', [])
@@ -363,6 +363,12 @@ def build_engine(scn, ctx, parallel_ok=False, entry='parts'):
         store_schema = {'vars': {'_emit': False}}
     elif scn.get('emit_via') == 'branch_on':
         store_schema = {'vars': {'_emit': True}}
+    elif scn.get('emit_via') == 'mixed_on':
+        # a flag for the whole branch and, in the same dictionary, more specific flags below it: the specific ones hold
+        store_schema = {'vars': dict({'_emit': True}, **{v: {'_emit': False} for v in scn.get('noemit', [])})}
+    elif scn.get('emit_via') == 'mixed_off':
+        store_schema = {'vars': dict({'_emit': False}, **{v: {'_emit': True} for v, _ in scn['store']
+                                                          if v not in scn.get('noemit', [])})}
     kwargs = dict(emitter={'type': 'verif_spy'}, emit_step=emit_step, store_schema=store_schema,
                   global_time_precision=scn['prec'], display_info=False, progress_bar=False,
                   initial_global_time=start_time(scn))
